@@ -59,7 +59,11 @@ def parseClusterTOp (j : Json) : R TOp := do
     `(k+1)`-th file write, inside its lock section, until `stallEnd` -/
 def parseClusterFOp (j : Json) : R FOp := do
   let k ← str j "k"
-  if k == "failWrite" then pure (.failWrite (← parseClusterOp (← fld j "op")) (← nat j "after"))
+  if k == "failWrite" then
+    let torn ← match j.getObjVal? "torn" with
+      | .ok v => v.getBool?
+      | .error _ => pure false
+    pure (.failWrite (← parseClusterOp (← fld j "op")) (← nat j "after") torn)
   else if k == "stallBegin" then pure (.stallBegin (← parseClusterOp (← fld j "op")) (← nat j "after"))
   else if k == "stallEnd" then pure .stallEnd
   else pure (.base (← parseClusterTOp j))
